@@ -76,20 +76,23 @@ def effAll (s : St) : List Term := (List.range s.W).map (eff s)
 def setAll {β : Type} (l : List β) (idx : List Nat) (f : Nat → β) : List β :=
   (List.range l.length).map fun i => if idx.contains i then f i else l.getD i (f i)
 
-/-- `set_wall_brdf(walls, mat, …)`. All materials of one configuration share the frequency
-    vector `F` (the code asserts equality). -/
-def setBrdf (s : St) (walls : List Nat) (mat : String) : St :=
+/-- `set_wall_brdf` with the table given as a term (`tab`) and named direction sets. All
+    materials of one configuration share the frequency vector `F` (the code asserts equality). -/
+def setBrdfT (s : St) (walls : List Nat) (tab : Term) (dirs : String) : St :=
   let dIn := s.dirsIn.getD (List.replicate s.W .none)
   let dOut := s.dirsOut.getD (List.replicate s.W .none)
   let ix := if s.dirsIn.isSome then s.index.getD (List.replicate s.W (-1)) else List.replicate s.W (-1)
   let br := if s.dirsIn.isSome then s.brdf else []
-  let br' := br ++ [Term.app "pi*" [.inp mat]]
+  let br' := br ++ [Term.app "pi*" [tab]]
   { s with
     freq := if s.freq.isNone then .inp "F" else s.freq
-    dirsIn := some (setAll dIn walls fun i => .app "rot" [s.geom, .inp (toString i), .inp (mat ++ ".in")])
-    dirsOut := some (setAll dOut walls fun i => .app "rot" [s.geom, .inp (toString i), .inp (mat ++ ".out")])
+    dirsIn := some (setAll dIn walls fun i => .app "rot" [s.geom, .inp (toString i), .inp (dirs ++ ".in")])
+    dirsOut := some (setAll dOut walls fun i => .app "rot" [s.geom, .inp (toString i), .inp (dirs ++ ".out")])
     brdf := br'
     index := some (setAll ix walls fun _ => (br'.length : Int) - 1) }
+
+/-- `set_wall_brdf(walls, mat, …)` called by the user with material `mat`. -/
+def setBrdf (s : St) (walls : List Nat) (mat : String) : St := setBrdfT s walls (.inp mat) mat
 
 def setAtt (s : St) (a : String) : St :=
   { s with freq := if s.freq.isNone then .inp "F" else s.freq, att := .inp a }
@@ -113,7 +116,8 @@ def bake (s : St) : St :=
 def installDefaults (s : St) : St :=
   let s1 := if s.dirsIn.isSome then s else
     let f := if s.freq.isNone then Term.inp "F0" else s.freq
-    { setBrdf { s with freq := f } (List.range s.W) "default" with freq := f }
+    -- the default table is `ones_like(frequencies)`: it depends on the frequency vector in force
+    { setBrdfT { s with freq := f } (List.range s.W) (.app "ones" [f]) "default" with freq := f }
   if s1.att.isNone then
     let f := if s1.freq.isNone then Term.inp "F0" else s1.freq
     { s1 with att := .app "zeros" [f], freq := f }
